@@ -29,6 +29,7 @@ pub fn set_clock(real_ns: i128, mono_ns: i128) {
             reads: vec![],
             fail_id: None,
             advance_ns: 0,
+            advance_all: 0,
         }
     });
 }
@@ -202,6 +203,9 @@ struct MockOps {
     grace_before: bool,
     queried: std::cell::Cell<bool>,
     reads_before_query: Rc<RefCell<Vec<usize>>>,
+    /// when set: (path, content) written to the PHC error-bound file at the second query (the device's value changed between two polls)
+    second_phc: Option<(String, Option<String>)>,
+    queries: usize,
 }
 
 impl vp::ChronyOps for MockOps {
@@ -209,6 +213,19 @@ impl vp::ChronyOps for MockOps {
         let n = VCLOCK.with(|v| v.borrow().reads.len());
         self.reads_before_query.borrow_mut().push(n);
         self.queried.set(true);
+        self.queries += 1;
+        if self.queries == 2 {
+            if let Some((path, content)) = &self.second_phc {
+                match content {
+                    Some(v) => {
+                        std::fs::write(path, format!("{}\n", v)).ok();
+                    }
+                    None => {
+                        std::fs::remove_file(path).ok();
+                    }
+                }
+            }
+        }
         self.tracking.clone()
     }
     fn is_within_grace_period(&self) -> bool {
@@ -244,11 +261,17 @@ pub fn cmd_poller(a: &[&str]) -> String {
     let (mut mbox, dbox) = new_channel_web(vec![ChannelId::ClockErrorBoundPoller, ChannelId::ShmWriter]);
     let shm_mailbox = mbox.get_mailbox(&ChannelId::ShmWriter).unwrap();
     let my = mbox.get_mailbox(&ChannelId::ClockErrorBoundPoller).unwrap();
+    // optional 7th argument `second=<ok:VALUE|missing>`: a second iteration with the same report; the PHC file changes before its query
+    let second = a.get(6).and_then(|x| x.strip_prefix("second=")).map(|x| x.to_string());
+    if second.is_some() {
+        let _ = dbox.send(&ChannelId::ClockErrorBoundPoller, Message::ChronyNotResponding);
+    }
     let _ = dbox.send(&ChannelId::ClockErrorBoundPoller, Message::ThreadAbort);
     let ctx = Context { mbox: my, dbox, channel_id: ChannelId::ClockErrorBoundPoller };
     let reads = Rc::new(RefCell::new(Vec::new()));
     let t = if some { Some(tracking(0.0, 0.0, 0.0, 1.0, 0, ref_time_for_age(1000), t_refid)) } else { None };
-    let ops = MockOps { tracking: t, grace, grace_before, queried: std::cell::Cell::new(false), reads_before_query: reads.clone() };
+    let second_phc = second.map(|x| (path.clone(), x.strip_prefix("ok:").map(|v| v.to_string())));
+    let ops = MockOps { tracking: t, grace, grace_before, queried: std::cell::Cell::new(false), reads_before_query: reads.clone(), second_phc, queries: 0 };
     set_clock(BASE_SECS as i128 * 1_000_000_000, 123_000_000_456);
     set_advance(1_000_000_000);
     let res = std::panic::catch_unwind(std::panic::AssertUnwindSafe(|| vp::run_poller(ctx, ops, phc_info, Duration::from_millis(1))));
